@@ -486,7 +486,8 @@ class C11(PropBase):
     ]
     assumptions = ["nom line grammar: the harness goes through SymbolFile::from_bytes; its byte-level model is C09's (Grammar.v, compared with the real parser by C09's check); "
                    "c11_from_bytes composes that model with C11's for every byte string shorter than 2^32-1 bytes that parses - the integer ranges and the INLINE-range count of wf_file "
-                   "are now PROVED from the parser (c11_parser_records_in_range), what stays a hypothesis there is only the encoding of names / STACK WIN payloads as integers (enc_names_ok)",
+                   "are PROVED from the parser (c11_parser_records_in_range) and encodings of names / STACK WIN payloads as integers that fit the text always exist (c11_encodings_exist), so c11_from_bytes_closed has "
+                   "no hypothesis besides the 4 GiB bound on the length of the text",
                    "Symbolizer/SymbolSupplier caching between walk_stack and SymbolFile::fill_symbol is exercised, not modelled (C12)",
                    "hypothesis of the theorems: fewer than 2^32-1 INLINE ranges in one FUNC. The u32 depth counter of `for depth in 1..` can only "
                    "overflow after 2^32-1 successful lookups at depths 1..2^32-1, i.e. 2^32 INLINE records of pairwise distinct depth in one FUNC "
@@ -506,7 +507,8 @@ class C11(PropBase):
                 "equals symbolize on them (c11_from_text); the module-list lookup of C08 composes with fill_symbol (c11_module_lookup_compose) and a module intersecting no other is the one found, also at the top of the address space (c11_module_isolated_found); "
                 "round 5: every record the parser state holds after any sequence of recognised or dropped lines is in the integer ranges the theorems assume and a FUNC block has at most as many INLINE ranges "
                 "as the text had bytes (c11_parser_records_in_range), so for EVERY byte string < 2^32-1 bytes that the parse loop of C09's model accepts (any read schedule, over-long lines dropped) finish returns a table, "
-                "the text's records are wf_file and fill_symbol on the parsed table equals symbolize on them (c11_from_bytes, c11_from_parse; c11_bytes_func_sound states the FUNC/PUBLIC clause directly of the bytes); "
+                "the text's records are wf_file and fill_symbol on the parsed table equals symbolize on them (c11_from_bytes, c11_from_parse; closed form c11_from_bytes_closed with the encodings of c11_encodings_exist: names ranked in String order - "
+                "rle_compare is proved to be the lexicographic order of the decoded strings and every stored name a normal form; c11_bytes_func_sound / c11_bytes_equals_linear_scan state the FUNC/PUBLIC and linear-scan clauses directly of the bytes); "
                 "get_inlinee_at_depth is characterised exactly for every FUNC block, overlapping or with duplicate (depth,address) keys: it inspects the greatest kept record in Inlinee's derived order at or below (depth,addr) - unique, "
                 "independent of the algorithm and of record order (c11_inlinee_lookup_exact, c11_inlinee_duplicates) - and Function values and every symbolication are invariant under permuting the INLINE ranges of a FUNC block "
                 "(c11_inline_order_irrelevant; the harness re-parses each generated file with the INLINE ranges permuted, and once more with every FILE / INLINE_ORIGIN line moved to the end, and the oracle demands identical tables and callbacks); "
